@@ -50,12 +50,8 @@ def decl_specs(tier):
     for c in ('sns', 'ss', 'os', 'p_seq', 'sw'):
         for ce in ('little', 'local'):
             specs.append({'names': [c, 'x3defu'], 'wrapper': 'a', 'opts': {'endianness': ce}})
-    # the NESTED class alone runs the field-by-field loop (both directions / one of them) inside holders with generated code
-    for c in ('p_at3', 'p_atn', 'p_atl', 'p_al6i', 'p_al4i', 'p_aln', 'p_em2i', 'p_ref', 'p_d0', 'p_al2', 'p_shm1', 'sn', 'r1', 'o1', 'dn'):
-        for w in 'bcd':
-            for o in ({'generate_for_pack': False, 'generate_for_unpack': False}, {'generate_for_pack': False}, {'generate_for_unpack': False}):
-                specs.append({'names': ['i1', c], 'wrapper': w, 'opts': o})
     specs.extend(alphabet.boundary_specs())
+    specs.extend(alphabet.structure_specs())
     specs.extend(alphabet.families())
     return specs
 
@@ -94,6 +90,20 @@ def check_one(dc, st, raw, r, start):
                 call = '%s.unpack(%r%s).pack()' % (dc.P['name'], raw, (', %d' % start) if start else '')
                 st.violate('sequential round trip differs', '%s -> %r but the parse consumed %r | %s' % (call, out[1], raw[start:end], dc.src.replace('\n', '; ')),
                            dc.case(raw=raw, start=start), dc.snippet('print(%s)' % call))
+        elif start == 0 and not (dc.feats & {'nonconsume', 'regex_nonkept', 'eos', 'rawcb', 'dollar'}):
+            # with positioning / alignment the consumed region is not known without the reference - but whatever was parsed,
+            # serializing it and parsing THAT must give the same packet and the same bytes again (the layout the two
+            # directions use is the same one)
+            got = ir.extract(u[1], dc.P, dc.pkts)
+            out = ea.impl_pack(u[1])
+            if out[0] == 'ok':
+                u2 = ea.impl_unpack(dc.K, out[1])
+                again = ir.extract(u2[1], dc.P, dc.pkts) if u2[0] == 'ok' else u2
+                out2 = ea.impl_pack(u2[1]) if u2[0] == 'ok' else None
+                if again != got or out2 != out:
+                    st.violate('second round trip differs', 'p = %s.unpack(%r) holds %r and packs to %r; parsing that gives %r which packs to %r | %s' % (
+                        dc.P['name'], raw, got, out[1], again, out2[1] if out2 else None, dc.src.replace('\n', '; ')),
+                        dc.case(raw=raw, start=start), dc.snippet('p = %s.unpack(%r); q = %s.unpack(p.pack()); print(p, q)' % (dc.P['name'], raw, dc.P['name'])))
         return
     if any(lo < start for lo, hi, _ in ok.consumed):
         st.inc('oos')
